@@ -202,6 +202,79 @@ def run(chk, tier):
         if kind in tables:
             got = tables[kind][0].get(code)
             chk.expect(got == var, "pdu-tables", f"reader:{kind}", code, var, got, loc=C.fn_loc(tables[kind][1]))
+    # the whole (source, reason) code space of A-ASSOCIATE-RJ, evaluated arm by arm (literals, ranges, bindings with guards):
+    # named codes -> their variant, reserved codes -> Reserved(code), everything else -> None
+    def eval_guard(g, env):
+        g = H.peel(g)
+        k = H.kind(g)
+        if k == "bin":
+            op = g[2]
+            if op in ("Or", "And"):
+                a, b = eval_guard(g[3], env), eval_guard(g[4], env)
+                return (a or b) if op == "Or" else (a and b)
+            a, b = eval_guard(g[3], env), eval_guard(g[4], env)
+            return {"Eq": a == b, "Ne": a != b, "Lt": a < b, "Le": a <= b, "Gt": a > b, "Ge": a >= b}[op]
+        if k == "path":
+            return env[H.path_of(g)]
+        if k == "lit":
+            return int(g[2][1])
+        if k == "un" and g[2] == "Not":
+            return not eval_guard(g[3], env)
+        raise facts.MissingAnchor("AssociationRJSource::from: guard shape " + H.show(g, 4))
+
+    def pat_int(p, val, env):
+        k = p[0]
+        if k == "pwild":
+            return True
+        if k == "plit":
+            return int(p[1][1]) == val
+        if k == "pbind":
+            env[p[1]] = val
+            return True if p[3] is None else pat_int(p[3], val, env)
+        if k == "prange":
+            lo = int(p[1][1][1]) if p[1] else 0
+            hi = int(p[2][1][1]) if p[2] else 255
+            return lo <= val <= hi if p[3] == "Included" else lo <= val < hi
+        if k == "por":
+            return any(pat_int(q, val, env) for q in p[1])
+        raise facts.MissingAnchor("AssociationRJSource::from: pattern kind " + k)
+
+    hsrc = fx.hirfn(f"{PDU}::AssociationRJSource::from")
+    msrc = [m for m in H.walk(hsrc["body"]) if H.kind(m) == "match"][0]
+    want_named = {tuple(int(x) for x in code.split(",")): var for kind, code, std, var in ref if kind == "rj_source"}
+    want_res = {(int(code), int(r)) for kind, code, std, var in ref if kind == "rj_reserved" for r in std.split(",")}
+    bad_codes = []
+    n_codes = 0
+    for s in range(0, 5):
+        for r in range(0, 256):
+            n_codes += 1
+            got = None
+            for p, g, b, ln in H.match_arms(msrc):
+                env = {}
+                alt = H.pat_alts(p)[0]
+                if alt[0] == "ptuple":
+                    ok = pat_int(alt[1][0], s, env) and pat_int(alt[1][1], r, env)
+                else:
+                    ok = alt[0] == "pwild"
+                if ok and g is not None:
+                    ok = bool(eval_guard(g, env))
+                if ok:
+                    chain = []
+                    for x in H.walk(b):
+                        pth = H.callee(x) if H.kind(x) == "call" else (x[2] if H.kind(x) == "path" and str(x[3]).startswith("ctor") else None)
+                        if pth and pth.startswith(PDU + "::") and pth.count("::") >= 3 and chain[-1:] != [pth.split("::")[-1]]:
+                            chain.append(pth.split("::")[-1])
+                    got = "/".join(chain) if chain and not any(H.kind(x) == "ret" for x in H.walk(b)) else None
+                    break
+            exp = want_named.get((s, r)) or (None)
+            if (s, r) in want_res:
+                src_name = {1: "ServiceUser", 3: "ServiceProviderPresentation"}[s]
+                exp = f"{src_name}/Reserved"
+            if got != exp:
+                bad_codes.append(((s, r), exp, got))
+    chk.expect(not bad_codes, "pdu-tables", "reader:rj_source", "whole-code-space", "named -> variant, reserved -> Reserved(code), else None for all 5 x 256 (source, reason) pairs", bad_codes[:6], loc=C.fn_loc(hsrc))
+    chk.analysed["rj_code_space"] = n_codes
+
     # writer side: literal tables per enum
     def writer_codes(enum_path):
         out = {}
